@@ -1,8 +1,8 @@
 #!/bin/bash
-# confirm_seed.sh <agent worktree> <letter a|b> <PROP> : re-verifies a seeded change on a fresh
+# confirm_seed.sh <agent worktree> <letter a|b> <PROP> [round tag, e.g. r3] : re-verifies a seeded change on a fresh
 # worktree of /repo's HEAD (patch applies, baseline tests still pass, demo fails with / passes without)
 # and stores it under /verif/seeded/<PROP><letter>/
-src="$1"; L="$2"; P="$3"; id="${P}${L}"
+src="$1"; L="$2"; P="$3"; R="${4:-}"; id="${P}${R}${L}"
 wt="/tmp/wt/confirm_$id"; rm -rf "$wt"; git -C /repo worktree prune
 git -C /repo worktree add -q --detach "$wt" HEAD || exit 2
 cp "$src/demo_$L.py" "$wt/demo.py"
